@@ -129,6 +129,143 @@ def run_one(it, seed, policy):
     return rec
 
 
+# --------------------------------------------------------------------------- TCP lifecycle (real Tcp*Connection on simsock)
+def run_tcp_batch(job):
+    import logging
+    logging.disable(logging.CRITICAL)
+    from .. import simsock
+    simsock.install()
+    return [run_tcp_one(it) for it in job]
+
+
+def run_tcp_one(it):
+    """enable / connect / link loss / disable sequences on the real TCP connection classes under HsmsProtocol."""
+    import secsgem.common
+    import secsgem.common.tcp_client_connection as tcc
+    import secsgem.common.tcp_connection as tc
+    import secsgem.common.tcp_server_connection as tsc
+    import secsgem.hsms
+    from .. import simsock
+
+    rec = dict(it)
+    rec.update({"steps": [], "ok": True, "clause": "ok"})
+
+    def main(s):
+        net = simsock.Net(capacity=65536)
+        simsock.set_net(net)
+        passive = it["side"] == "server"
+        st = secsgem.hsms.HsmsSettings(connect_mode=secsgem.hsms.HsmsConnectMode.PASSIVE if passive else secsgem.hsms.HsmsConnectMode.ACTIVE,
+                                       port=5002)
+        proto = secsgem.hsms.HsmsProtocol(st)
+        proto._linktest_timeout = 1e9
+        peer = {"ep": None, "lst": None}
+        if not passive:
+            peer["lst"] = None
+
+        def fail(clause):
+            rec["ok"] = False
+            rec["clause"] = clause
+            rec["blocked"] = [b["thread"] + ":" + "/".join(b["stack"][-2:]) for b in s.blocked_report()][:8]
+
+        def wait(pred, dt):
+            ok, why = s.run_until(pred, max_dt=dt)
+            return ok
+
+        for step in it["script"]:
+            rec["steps"].append(step)
+            if step == "enable":
+                proto.enable()
+                s.advance(0.3)
+            elif step == "listen_peer":          # client side: a peer starts listening
+                peer["lst"] = net.listen_raw(5002)
+            elif step == "connect":
+                if passive:
+                    peer["ep"] = net.dial(5002)
+                    if peer["ep"] is None:
+                        fail("passive-endpoint-not-listening")
+                        return
+                else:
+                    if peer["lst"] is None:
+                        peer["lst"] = net.listen_raw(5002)
+                    if not wait(lambda: bool(peer["lst"]), 30):
+                        fail("active-endpoint-did-not-connect")
+                        return
+                    peer["ep"] = peer["lst"].pop(0)
+                if not wait(lambda: proto.connection_state.current.name != "NOT_CONNECTED", 30):
+                    fail("connection-not-reported")
+                    return
+            elif step == "select":
+                ep = peer["ep"]
+                if passive:
+                    ep.write(link.hsms_frame(stype=1, system=5))
+                else:
+                    if not wait(lambda: len(ep.rx) >= 14, 10):
+                        fail("no-select-request")
+                        return
+                    fr, _ = link.parse_frames(ep.read())
+                    for f in fr:
+                        if f.get("stype") == 1:
+                            ep.write(link.hsms_frame(stype=2, system=f["system"]))
+                if not wait(lambda: proto.connection_state.current.name == "CONNECTED_SELECTED", 10):
+                    fail("not-selected-after-select")
+                    return
+            elif step == "partial":
+                peer["ep"].write(link.hsms_frame(stype=0, system=9, session=0, stream=1, function=1)[:9])
+                s.advance(0.7)
+            elif step == "peer_close":
+                peer["ep"].close()
+                if not wait(lambda: proto.connection_state.current.name == "NOT_CONNECTED", 30):
+                    fail("link-loss-not-NOT_CONNECTED")
+                    return
+                if not passive:
+                    net.raw_accept.pop(5002, None)
+                    peer["lst"] = None
+            elif step == "disable":
+                dn = {"v": False}
+
+                def dis(dn=dn):
+                    proto.disable()
+                    dn["v"] = True
+
+                th = simrt.Thread(target=dis, name="app_disable")
+                th.start()
+                if not wait(lambda: dn["v"], 60):
+                    fail("disable-did-not-return")
+                    return
+                if proto.connection_state.current.name != "NOT_CONNECTED":
+                    fail("not-NOT_CONNECTED-after-disable")
+                    return
+            elif step == "wait":
+                s.advance(it.get("wait", 1.0))
+            else:
+                raise ValueError(step)
+
+    s = simrt.run(main, seed=it["seed"], policy=it["policy"], switch_prob=0.3, max_vtime=1e5, wall_timeout=120,
+                  line_funcs=[tc.TcpConnection._start_receiver, tc.TcpConnection.disconnect, tsc.TcpServerConnection.disable,
+                              tcc.TcpClientConnection.disable], line_cost=1e-3, pct_depth=3, pct_horizon=400)
+    simsock.set_net(None)
+    rec["outcome"] = s.outcome
+    if s.outcome != "done":
+        rec["ok"] = False
+        rec["clause"] = "run-" + str(s.outcome)
+        rec["wedge"] = s.wedge_info
+    rec["thread_errors"] = [e[:2] for e in s.errors[:3]]
+    return rec
+
+
+TCP_SCRIPTS = {
+    "disable-while-idle": ["enable", "disable"],
+    "disable-after-wait": ["enable", "wait", "disable"],
+    "disable-while-connected": ["enable", "connect", "disable"],
+    "disable-while-selected": ["enable", "connect", "select", "disable"],
+    "disable-with-partial-frame": ["enable", "connect", "select", "partial", "disable"],
+    "loss-then-disable": ["enable", "connect", "select", "peer_close", "disable"],
+    "loss-partial-reconnect": ["enable", "connect", "select", "partial", "peer_close", "wait", "connect", "select", "disable"],
+    "disable-enable-cycle": ["enable", "connect", "select", "disable", "enable", "connect", "select", "disable"],
+    "idle-disable-enable": ["enable", "disable", "enable", "connect", "select", "disable"],
+}
+
+
 def run(ctx: Ctx):
     wd = workdir(PID)
     # ---- Leg M
@@ -203,6 +340,25 @@ def run(ctx: Ctx):
                            "sel": r_["sel"], "fault": r_["fault"], "chunk": r_["chunk"], "record": r_,
                            "what": f"{v['clause']}: stream {r_['stream']} cut at byte {r_['cut']} ({inside}), "
                                    f"{'SELECTED' if r_['sel'] else 'NOT SELECTED'}, fault {r_['fault']}; idle={r_.get('idle')}"})
+    # ---- the real TcpServerConnection / TcpClientConnection lifecycle on the simulated socket layer
+    titems = []
+    tid = 0
+    for side in ("server", "client"):
+        for name, script in TCP_SCRIPTS.items():
+            for pol in (["fifo", "pct", "pct", "random"] if ctx.quick else ["fifo"] + ["pct"] * 12 + ["random"] * 4):
+                tid += 1
+                titems.append({"id": tid, "side": side, "name": name, "script": script, "policy": pol, "wait": rng.choice([0.3, 1.0, 11.0]),
+                               "seed": rng.randrange(1 << 30)})
+    trecs = [r_ for batch in pmap(run_tcp_batch, chunks(titems, 28)) for r_ in batch]
+    ctx.traces += len(trecs)
+    ctx.evaluations += len(trecs)
+    for r_ in trecs:
+        if not r_["ok"]:
+            ctx.violation({"check": "tcp-lifecycle", "clause": r_["clause"], "side": r_["side"], "scenario": r_["name"], "policy": r_["policy"],
+                           "steps_done": r_["steps"], "blocked": r_.get("blocked"), "thread_errors": r_["thread_errors"],
+                           "sched_seed": r_["seed"], "connected_at_disable": "connect" in r_["steps"] and "peer_close" not in r_["steps"][-2:],
+                           "what": f"{r_['side']} {r_['name']} ({r_['policy']}): {r_['clause']} after {r_['steps']}; thread errors {r_['thread_errors'][:1]}"})
+    ctx.extra["tcp_lifecycle_runs"] = len(trecs)
     ctx.rule = ("every byte offset of 4 inbound streams x {NOT SELECTED, SELECTED} x {peer close, disable(), close+reconnect+select} "
                 "x chunking x thread schedule policy on the real endpoint; non-trivial = distinct (stream, cut, state, fault)")
     ctx.assumptions += ["FakeConnection mirrors TcpConnection's close sequence (on_disconnecting -> close -> on_disconnected on "
